@@ -61,4 +61,41 @@ def Node.http (n : Node) (sid : Sid) (body : Bytes) : Node × Bytes × List Ev :
     match n.close sid with
     | (n, evs2) => (n, Bytes.join [59] resps, evs ++ evs2.filter (evNotForSid sid))
 
+
+def dedupConsecutive : List (Bytes × Bool) → List (Bytes × Bool)
+  | [] => []
+  | [x] => [x]
+  | x :: y :: r => if x = y then dedupConsecutive (y :: r) else x :: dedupConsecutive (y :: r)
+
+/-- `snapshot_all_pendding_dbs` (database part): dedup, then pop from the back of the queue.
+`orders` gives, per database, the observed iteration order of its keys. -/
+def Node.snapshotAll (n : Node) (orders : List (Bytes × List Bytes)) : Node :=
+  let q := (dedupConsecutive n.toSnapshot).reverse
+  let n := { n with toSnapshot := [] }
+  q.foldl (fun n (name, reclaim) =>
+    match n.db? name with
+    | some db =>
+      match snapshotDb db n.fs reclaim ((AL.get? orders name).getD []) n.clock with
+      | (db', fs', clock') => { n.setDb db' with fs := fs', clock := clock' }
+    | none => n) n
+
+def stripSuffix (s suffix : Bytes) : Option Bytes :=
+  if Bytes.endsWith s suffix then some (s.take (s.length - suffix.length)) else none
+
+/-- process start: `Databases::new` + `load_all_dbs` over the surviving files.
+`none` = the start-up panicked. -/
+def Node.restart (n : Node) (fresh : Node) : Option Node :=
+  let names := Bytes.sort (n.fs.filterMap fun (f, _) => stripSuffix f b!"-nun.data.keys")
+  let start : Node := { fresh with fs := n.fs, role := n.role }
+  names.foldl (fun (acc : Option Node) name =>
+    match acc with
+    | none => none
+    | some m =>
+      let (id, strat) := loadMeta m.fs name m.dbs.length
+      match loadDb m.fs name m.clock with
+      | (.ok map, clock) =>
+        let db : Db := { name, id, strategy := strat, map, watchers := [], conns := 0 }
+        some ({ m with clock }.addDatabase db).1
+      | (.panic _, _) => none) (some start)
+
 end Nun
